@@ -177,15 +177,17 @@ func (h *Hook) updateClient(cl *mqtt.Client) {
 		Clean:           cl.Properties.Clean,
 		ProtocolVersion: cl.Properties.ProtocolVersion,
 		Properties: storage.ClientProperties{
-			SessionExpiryInterval: props.SessionExpiryInterval,
-			AuthenticationMethod:  props.AuthenticationMethod,
-			AuthenticationData:    props.AuthenticationData,
-			RequestProblemInfo:    props.RequestProblemInfo,
-			RequestResponseInfo:   props.RequestResponseInfo,
-			ReceiveMaximum:        props.ReceiveMaximum,
-			TopicAliasMaximum:     props.TopicAliasMaximum,
-			User:                  props.User,
-			MaximumPacketSize:     props.MaximumPacketSize,
+			SessionExpiryInterval:     props.SessionExpiryInterval,
+			SessionExpiryIntervalFlag: props.SessionExpiryIntervalFlag,
+			RequestProblemInfoFlag:    props.RequestProblemInfoFlag,
+			AuthenticationMethod:      props.AuthenticationMethod,
+			AuthenticationData:        props.AuthenticationData,
+			RequestProblemInfo:        props.RequestProblemInfo,
+			RequestResponseInfo:       props.RequestResponseInfo,
+			ReceiveMaximum:            props.ReceiveMaximum,
+			TopicAliasMaximum:         props.TopicAliasMaximum,
+			User:                      props.User,
+			MaximumPacketSize:         props.MaximumPacketSize,
 		},
 		Will: storage.ClientWill(cl.Properties.Will),
 	}
@@ -272,6 +274,7 @@ func (h *Hook) OnRetainMessage(cl *mqtt.Client, pk packets.Packet, r int64) {
 		Origin:      pk.Origin,
 		Properties: storage.MessageProperties{
 			PayloadFormat:          props.PayloadFormat,
+			PayloadFormatFlag:      props.PayloadFormatFlag,
 			MessageExpiryInterval:  props.MessageExpiryInterval,
 			ContentType:            props.ContentType,
 			ResponseTopic:          props.ResponseTopic,
@@ -306,6 +309,7 @@ func (h *Hook) OnQosPublish(cl *mqtt.Client, pk packets.Packet, sent int64, rese
 		Created:     pk.Created,
 		Properties: storage.MessageProperties{
 			PayloadFormat:          props.PayloadFormat,
+			PayloadFormatFlag:      props.PayloadFormatFlag,
 			MessageExpiryInterval:  props.MessageExpiryInterval,
 			ContentType:            props.ContentType,
 			ResponseTopic:          props.ResponseTopic,
